@@ -89,6 +89,8 @@ def run(ctx):
     align_rule(ctx, syn)
     cursor_rule(ctx, syn)
     print_rule(ctx, syn)
+    sep_rule(ctx, syn)
+    stopset_rule(ctx, syn)
     lossless_rule(ctx, syn)
     verbatim_rule(ctx, syn)
 
@@ -589,6 +591,210 @@ def print_rule(ctx, syn):
     r.hit("subquery-separator")
     if not seps or not any("|" in (lit.get("v") or "") for lp in seps for lit in walk(lp["body"]) if lit.get("k") == "lit" and lit.get("t") in ("str", "char")):
         ctx.report(r, "subquery-separator", "Query::to_string writes several sub-queries without the `|` separator the parser requires between them", ts.file, ts.line)
+
+
+# ---------------------------------------------------------------------- SEP
+SEP_GLUE = {"?": "the variable sigil: `?` and the name that follows are one token"}
+SEP_CHARWISE = {("}", "}"): "parse_subqueries reads a closing brace by character (chars().nth(0) == Some('}')), so `}}` closes two blocks"}
+
+
+def sep_rule(ctx, syn):
+    """The parser tokenises on whitespace only (QUERYSPLITCHARS): `?a{`, `RESOURCE{` or `?t}` are one token to it. So in
+    the text Query::to_string builds, every piece that starts a new token has to follow whitespace. Decided by an abstract
+    interpretation of the function over {start, whitespace, token} as the class of the last character written so far;
+    a loop body is joined to a fixpoint (zero or more iterations), branches are joined, the recursive call for a
+    sub-query ends in whatever this function can end in."""
+    from synq import walk, unparse, strip
+    r = ctx.rule("C09.SEP", "in Query::to_string every piece that starts a token (keyword, brace, `|`, a printed constraint or sub-query) is written after whitespace on every path; only the `?` sigil is glued to what follows")
+    ts = [f for f in syn.fns if f.name == "to_string" and (f.self_ty or "").startswith("Query") and f.file == "src/api/query.rs" and f.body is not None]
+    if len(ts) != 1:
+        ctx.anchor_missing(r, "Query::to_string")
+        return
+    ts = ts[0]
+    ctx.functions_analysed.add(ts.qual)
+    buf = None
+    for st in ts.body["stmts"]:
+        if st.get("k") == "let" and st.get("init") is not None and unparse(st["init"]).replace(" ", "") == "String::new()":
+            buf = st["pat"].get("name")
+            break
+    if buf is None:
+        ctx.anchor_missing(r, "Query::to_string: `let mut s = String::new()`")
+        return
+    WS = "ws"
+    self_end = {"tok:dyn"}       # what a printed sub-query can end in: grows to a fixpoint below
+    problems = {}
+    pieces = [0]
+
+    def is_buf(e):
+        e = strip(e)
+        return e.get("k") == "path" and e.get("s") == buf
+
+    def piece_of(e):
+        """-> (first, last): 'ws' | 'tok:<c>' | 'tok:dyn' | 'tok:self' ; None for an empty literal"""
+        e0 = e
+        while isinstance(e0, dict) and e0.get("k") in ("ref", "paren", "try"):
+            e0 = e0["e"]
+        if e0.get("k") == "lit" and e0.get("t") in ("str", "char"):
+            v = e0.get("v") or ""
+            if not v:
+                return None
+            cls = lambda c: WS if c in " \n\r\t" else "tok:" + c
+            return cls(v[0]), cls(v[-1])
+        if e0.get("k") == "mcall" and e0["method"] == "to_string" and not e0["args"]:
+            rv = unparse(e0["recv"])
+            if "subquer" in rv:
+                return "tok:dyn", "tok:self"
+        return "tok:dyn", "tok:dyn"
+
+    def append(state, e, node):
+        pc = piece_of(e)
+        if pc is None:
+            return state
+        pieces[0] += 1
+        first, last = pc
+        if first != WS:
+            for prev in sorted(state):
+                if prev.startswith("tok:"):
+                    if first == "tok:dyn" and prev[4:] in SEP_GLUE:
+                        continue
+                    if (prev[4:], first[4:]) in SEP_CHARWISE:
+                        continue
+                    what = unparse(e)[:40].replace("\n", "\\n").replace("\t", "\\t")
+                    problems.setdefault("%s after %s" % (what, "a printed sub-query / name / keyword" if prev == "tok:dyn" else "`%s`" % prev[4:]), (node.get("l"), what, prev))
+        if last == "tok:self":
+            return set(self_end)
+        return {last}
+
+    def cond_refines(cond):
+        """`!s.ends_with(<ws char>)`: the fall-through (condition false) state is 'whitespace'"""
+        c = strip(cond)
+        if c.get("k") == "unary" and c.get("op") == "!":
+            m = strip(c["e"])
+            if m.get("k") == "mcall" and m["method"] == "ends_with" and is_buf(m["recv"]) and len(m["args"]) == 1:
+                a = strip(m["args"][0])
+                if a.get("k") == "lit" and (a.get("v") or "x") in (" ", "\n", "\t", "\r"):
+                    return True
+        return False
+
+    def run_block(b, state):
+        for st in b.get("stmts", []):
+            state = run_stmt(st, state)
+        return state
+
+    def run_stmt(st, state):
+        k = st.get("k")
+        if k == "let":
+            if st.get("init") is not None and any(is_buf(x) for x in walk(st["init"]) if isinstance(x, dict) and x.get("k") == "path") and unparse(st["init"]).replace(" ", "") != "String::new()":
+                problems.setdefault("unmodelled:let", (st.get("l"), unparse(st["init"])[:40], ""))
+            return state
+        if k == "exprstmt":
+            return run_expr(st["e"], state)
+        return state
+
+    def run_expr(e, state):
+        k = e.get("k")
+        if k == "binary" and e.get("op") == "+=" and is_buf(e["left"]):
+            return append(state, e["right"], e)
+        if k == "mcall" and is_buf(e["recv"]) and e["method"] in ("push", "push_str") and len(e["args"]) == 1:
+            return append(state, e["args"][0], e)
+        if k == "for" or k == "while" or k == "loop":
+            cur = set(state)
+            for _ in range(8):
+                out = run_block(e["body"], set(cur))
+                nxt = cur | out
+                if nxt == cur:
+                    break
+                cur = nxt
+            return cur
+        if k == "if":
+            then = run_block(e["then"], set(state))
+            if e.get("else") is not None:
+                other = run_expr(e["else"], set(state)) if e["else"].get("k") != "block" else run_block(e["else"], set(state))
+            elif cond_refines(e["cond"]):
+                other = {WS}
+            else:
+                other = set(state)
+            return then | other
+        if k == "iflet":
+            then = run_block(e["then"], set(state))
+            other = set(state)
+            if e.get("else") is not None:
+                other = run_expr(e["else"], set(state)) if e["else"].get("k") != "block" else run_block(e["else"], set(state))
+            return then | other
+        if k == "match":
+            out = set()
+            for arm in e["arms"]:
+                body = arm["body"]
+                out |= run_expr(body, set(state))
+            return out or state
+        if k == "block":
+            return run_block(e, state)
+        if k == "blockexpr":
+            return run_block(e["block"], state)
+        if k in ("return", "call", "mcall", "macro", "path", "lit", "try"):
+            if k in ("mcall", "call", "macro") and any(is_buf(x) for x in walk(e) if isinstance(x, dict) and x.get("k") == "path") and not (k == "call" and unparse(e["func"]).replace(" ", "") == "Ok"):
+                problems.setdefault("unmodelled:%s" % unparse(e)[:30], (e.get("l"), unparse(e)[:40], ""))
+            return state
+        return state
+
+    final = set()
+    for _ in range(6):
+        problems.clear()
+        pieces[0] = 0
+        final = run_block(ts.body, {"start"})
+        new_end = {x for x in final if x != "start"} | {"tok:dyn"}
+        if new_end == self_end:
+            break
+        self_end = new_end
+    r.hit("Query::to_string", sample={"pieces": pieces[0], "can_end_in": sorted(final)})
+    for key, (line, what, prev) in sorted(problems.items()):
+        if key.startswith("unmodelled:"):
+            ctx.report(r, key, "Query::to_string changes its buffer in a way this rule does not model (`%s`): token separation is not established" % what, ts.file, line)
+        else:
+            ctx.report(r, "glued:" + key, "Query::to_string can write `%s` directly after %s, without whitespace in between: the parser splits on whitespace only, so the two read as one token (a name like `a{`, a result type like `RESOURCE{`) and the printed query no longer parses to the same query" % (what, "a token that ends in a name, keyword or printed sub-query" if prev == "tok:dyn" else "`%s`" % prev[4:]), ts.file, line)
+    ctx.floor(r, pieces[0], 15, "pieces written by Query::to_string")
+
+
+# ---------------------------------------------------------------------- STOPSET
+def stopset_rule(ctx, syn):
+    """parse_select is the parser of a sub-query too (parse_subqueries calls it), where `}` or `|` follows the query. Its
+    constraint loop stops at `{`, `}` and `|`; the WHERE-or-nothing decision just before it has to accept the same
+    tokens, or a sub-query without constraints - which the printer writes and the loop is ready for - is a syntax error."""
+    from synq import walk, unparse, strip
+    r = ctx.rule("C09.STOPSET", "in parse_select every token at which the constraint loop stops (`{`, `}`, `|`) is accepted by the WHERE-or-nothing match before it")
+    fns = [f for f in syn.fns if f.name == "parse_select" and (f.self_ty or "").startswith("Query") and f.file == "src/api/query.rs" and f.body is not None]
+    if len(fns) != 1:
+        ctx.anchor_missing(r, "Query::parse_select")
+        return
+    fn = fns[0]
+    ctx.functions_analysed.add(fn.qual)
+    stops = set()
+    for lp in walk(fn.body):
+        if lp.get("k") == "while" and any(c.get("k") == "call" and "Constraint" in unparse(c["func"]) and "parse" in unparse(c["func"]) for c in walk(lp["body"])):
+            for b in walk(lp["cond"]):
+                if b.get("k") == "binary" and b.get("op") == "!=":
+                    for side in (b["left"], b["right"]):
+                        for lit in walk(side):
+                            if lit.get("k") == "lit" and lit.get("t") == "char":
+                                stops.add(lit["v"])
+    arms = None
+    for m in walk(fn.body):
+        if m.get("k") == "match":
+            pats = [a["pat"].get("s") or "" for a in m["arms"]]
+            if any('"WHERE"' in p for p in pats):
+                arms = set()
+                for a in m["arms"]:
+                    body = a["body"]["block"] if a["body"].get("k") == "blockexpr" else a["body"]
+                    if body.get("k") == "block" and not body.get("stmts"):
+                        arms |= set(re.findall(r'Some\s*\(\s*"([^"]*)"\s*\)', a["pat"].get("s") or ""))
+    if not stops or arms is None:
+        ctx.anchor_missing(r, "parse_select: the constraint loop with its stop characters / the match on WHERE")
+        return
+    for c in sorted(stops):
+        r.hit("stop:" + c, sample={"stop": c, "accepted_without_where": c in arms})
+        if c not in arms:
+            ctx.report(r, "stop:" + c, "parse_select stops reading constraints at `%s` but does not accept `%s` where WHERE is optional: a sub-query without constraints followed by `%s` (as Query::to_string prints it) is rejected with 'Expected WHERE'" % (c, c, c), fn.file, fn.line)
+    ctx.floor(r, len(stops), 3, "stop characters of the constraint loop")
 
 
 # ---------------------------------------------------------------------- LOSSLESS
